@@ -55,6 +55,37 @@ CHECKS.update({
             "5 C20"),
 })
 
+CHECKS.update({
+    "C02": ("relang+kani", TV, "SMT regular-language emptiness on the real per-component walk programs vs. the real complete program (pruning lemma), per program, for all canonical paths; plus Kani step of the walker closure (when built)",
+            "For every glob with component programs c_0..c_{k-1} (read through a hook that repeats the call site) z3 decides that no canonical path matched by the complete program has a component j rejected by c_j, and none has fewer than k components; so pruning directories by component never loses a match. Witnesses are replayed on the real regexes.",
+            "Decomposition (DESIGN 5 C02): (1) this lemma, (2) per-entry decision of the real closure (engine B, concrete path-shape table), (3) cancellation = C13, (4) walkdir delivery contract assumed. Traversal itself and the OS are outside the claim.",
+            "5 C02"),
+    "C03": ("relang+kani", TV, "SMT regular-language equality / inclusion on the two partition programs of the real `not` vs. the public pattern program; Kani step of the real verdict function with regex verdicts stubbed",
+            "For generated negations (single expression, compiled glob, `any` of 2-3 as text/compiled/nested, the empty pattern) the exhaustive/nonexhaustive partition regexes built by the real FileIterator::not are read through a hook; z3 decides L(E) ∪ L(N) = L(pattern) and that every canonical path beneath a path in L(E) is in L(E) ∪ L(N) (tree discard = per-entry filtering). Kani decides that FilterAny::residue consults the partitions with exactly the root-relative path and answers Tree iff E matched, File iff only N did.",
+            "Root-relative paths are relative canonical paths (or empty); plumbing from verdict to cancellation is C13/C16. Witnesses replayed on the real regexes and, when names are file-system safe, on a real directory walk.",
+            "5 C03"),
+    "C04": ("relang", TV, "SMT regular-language emptiness per capture group: left-context . (group minus allowed capture language) . right-context, for all well-formed paths and all parses",
+            "Structure (one regex group per capturing top-level token, in order, not nested, not under repetition, anchored) is compared per program; for each group z3 decides that no path has a parse in which the capture falls outside what its own sub-expression may match (wildcards/classes never a separator, tree wildcards a run of complete components); sat models are replayed through the real matched().get(i) and only a real capture outside the language is reported.",
+            "The between-capture clause is not decided (stated). All parses are a superset of the engine's leftmost-first parse, so unsat is sound; sat is confirmed on the real engine.",
+            "5 C04"),
+    "C07": ("relang", TV, "SMT regular-language equality between the implementation's own compiled languages of metamorphically related expressions, for all paths",
+            "Families generated from ASTs: alternation vs. union of branch substitutions, bounded repetition vs. unrollings, open repetition vs. prefix + zero-or-more, wrapping in single-branch braces / once-only repetitions, and any([..]) (text, compiled, owned, nested) vs. union of its patterns; z3 decides L(lhs) = ⋃ L(rhs_i); witnesses replayed through the real is_match of every member.",
+            "A law is checked only when all members build; holes with flags skipped; alt-union / unroll holes not under an iterating repetition. No reference semantics involved.",
+            "5 C07"),
+    "C08": ("relang", TV, "SMT regular-language equality: canonical paths matched by the glob vs. Join(prefix, language of the real postfix program), per program",
+            "For every program the real partition() gives prefix and postfix; z3 decides (L(glob) ∩ Canon) ∖ {prefix} = prefix/· (L(postfix) ∩ CanonRel) and the empty-remainder edge separately; postfix never rooted, idempotent re-partition, suffix text, identical rebuilt program and spans are compared per program.",
+            "Canonical paths; remainder as Path::strip_prefix returns it. Known-finding attribution for the rooted leading tree wildcard is itself decided by the solver on a patched term.",
+            "5 C08"),
+    "C18": ("relang+kani", TV, "Kani/CBMC on the escape kernel for every char; SMT singleton-language query on the glob built from the escaped string, per string",
+            "Kani: is_meta_character / is_contextual_meta_character for every char; escape on every one-char string (meta: one backslash; non-meta: unchanged, borrowed) and (thorough) every two-char non-meta string. Engine A: every string of <= 3 chars over a 25-char alphabet with all meta-characters (+ seeded fragment concatenations), no backslash, no '//': the escaped string builds, text() is invariant and equal, and z3 decides it matches that string and nothing else.",
+            "Parser stop set vs. meta set outside the enumerated alphabet is outside the claim (parser not symbolically executable).",
+            "5 C18"),
+    "C19": ("relang", TV, "SMT regular-language equality between the compiled programs of every conversion route (skipped when byte-identical), plus per-program comparison of query answers and captures on solver-chosen paths",
+            "Routes: Display+new, clone, into_owned, FromStr, TryFrom, any([text]) vs any([compiled]) vs any([owned]) vs nested, partition of borrowed vs owned. Patterns read through the hook; z3 decides language equality; depth/text/has_root/is_exhaustive/captures/semantic literals compared; matched().get(i) for i <= n+1 compared borrowed vs to_owned vs into_owned and across routes on a matched and an unmatched solver witness.",
+            "Apart from language equality the comparisons are concrete per program (stated).",
+            "5 C19"),
+})
+
 NOT_APPLICABLE = {
     "C06": "the rule checker and the nom parser feeding it cannot be executed symbolically with what is installed (CBMC: >25 min / 7 GB on a 5-leaf token tree, 1 symbolic byte through the parser >20 min); deciding concrete Glob::new verdicts against a reference would be enumeration, a different technique (DESIGN 5 C06, 6)",
     "C17": "every span originates in the nom parser (pori::span, ErrorEntry::location); without a symbolic expression there is nothing for a solver to decide and slicing concrete expressions is enumeration (DESIGN 5 C17, 6)",
